@@ -125,6 +125,21 @@ def run(rep, idx, tier):
         return
     RP = rps[0]
     env = {"RP": RP}
+    # the read port is the synchronous one (the default): the read data is registered, i.e. belongs to the address of the request
+    # cycle, whatever the initiator drives in the acknowledge cycle.  An asynchronous port follows the *current* address.
+    for call in calls["read_port"]:
+        dom = next((v for k_, v in call[3] if k_ == "domain"), None)
+        if dom is not None and dom != ('const', 'sync'):
+            if dom[0] == 'const':
+                rep.bad("C15.3", site, "the read port is synchronous (read data belongs to the address of the request cycle)",
+                        f"read_port(domain={dom[1]!r}): the read data follows the address of the *current* cycle, so a transfer whose address "
+                        "changes in the acknowledge cycle (back-to-back reads) returns the word of the next address")
+            else:
+                rep.unk("C15.3", site, "the read port is synchronous (read data belongs to the address of the request cycle)",
+                        f"read_port(domain={ir.show(dom)[:40]})")
+        else:
+            rep.ok("C15.3", site, "the read port is synchronous (read data belongs to the address of the request cycle)", "read_port() in the sync domain",
+                   nontrivial=False)
     # C15.3 read side
     one(rep, c, "C15.3", "read_port.addr == wb_bus.adr", ('attr', RP, 'addr'), "self.wb_bus.adr", None)
     one(rep, c, "C15.3", "wb_bus.dat_r == read_port.data", c.parse("self.wb_bus.dat_r"), ('attr', RP, 'data'), None)
